@@ -810,6 +810,12 @@ class DataFrameSchema(Generic[TDataObject], BaseSchema):
         }
 
         new_schema.columns = new_columns
+        if new_schema.unique:
+            # joint uniqueness refers to the columns by name
+            new_schema.unique = [
+                rename_dict[name] if name in rename_dict else name
+                for name in new_schema.unique
+            ]
         return cast(Self, new_schema)
 
     def select_columns(self, columns: List[Any]) -> Self:
